@@ -18,5 +18,5 @@ for f in sys.argv[1:]:
         print('    ',show(o))
     for i,t in enumerate(s.get('tasks') or []):
         print('   task',i)
-        for o in t: print('      ',show(o))
+        for o in (t or []): print('      ',show(o))
     if s.get('schedule'): print('   schedule',s['schedule'])
